@@ -11,6 +11,7 @@ import (
 	"github.com/cloudflare/pat-go/tokens/type2"
 
 	"verif/internal/core"
+	"verif/internal/fixtures"
 	"verif/internal/simnet"
 	"verif/internal/world"
 )
@@ -137,6 +138,17 @@ func (c c05) Execute(p *core.Plan) *core.Result {
 		adapters = append(adapters, world.Adapter2{I: is.Iss})
 	}
 	batchIssuer := batched.NewBasicBatchedIssuer(adapters...)
+	// REUSE: the caller's argument slice goes back to its pool: it is overwritten with issuers
+	// of unrelated keys; the batch issuer must have taken what it needs
+	for i := range adapters {
+		if i%2 == 0 {
+			k, _ := oprf.DeriveKey(oprf.SuiteP384, oprf.VerifiableMode, w.SeedBytes(fmt.Sprintf("junk1/%d", i), 48), []byte("verif"))
+			adapters[i] = world.Adapter1{I: type1.NewBasicPrivateIssuer(k)}
+		} else {
+			adapters[i] = world.Adapter2{I: type2.NewBasicPublicIssuer(fixtures.RSA(7 - i%8))}
+		}
+	}
+	res.FaultFired("REUSE(configuration slice)", true)
 
 	// foreign keys for the "unknown key id" slots (not configured; truncated id differs from all configured ones)
 	var foreign1 *oprf.PrivateKey
